@@ -1,18 +1,21 @@
 #!/bin/bash
 # seeded_matrix.sh [dir ...]: run the quick check of each seeded change's property with the change applied to
 # /repo (undone straight afterwards); writes seeded/MATRIX.json. /repo must be clean.
-cd /verif
+cd "$(dirname "$0")/.."
+export ROOT="$(pwd)"
+REPO="${VERIF_REPO:-/repo}"
 dirs="$@"; [ -z "$dirs" ] && dirs=$(ls -d seeded/*/ | sort)
 python3 - <<'PY' > /dev/null
 import json,os
-p='/verif/seeded/MATRIX.json'
+import os
+p=os.path.join(os.environ.get('ROOT','/verif'),'seeded/MATRIX.json')
 if not os.path.exists(p): json.dump({}, open(p,'w'))
 PY
 for d in $dirs; do
   d=${d%/}; name=$(basename $d); prop=$(python3 -c "import json;print(json.load(open('$d/meta.json'))['property'])")
   checks=$(python3 -c "import json;m=json.load(open('$d/meta.json'));print(' '.join(m.get('checks_to_run',[m['property']])))")
-  git -C /repo diff --quiet || { echo "refusing: /repo dirty"; exit 2; }
-  git -C /repo apply /verif/$d/patch.diff || { echo "$name: patch does not apply"; continue; }
+  git -C "$REPO" diff --quiet || { echo "refusing: /repo dirty"; exit 2; }
+  git -C "$REPO" apply "$ROOT/$d/patch.diff" || { echo "$name: patch does not apply"; continue; }
   res="missed"; detail=""
   for c in $checks; do
     s=$(date +%s); ./check $c --tier quick > /tmp/matrix.out 2>&1; rc=$?; e=$(date +%s)
@@ -20,11 +23,12 @@ for d in $dirs; do
     if [ $rc -eq 1 ]; then res="detected"; detail="check=$c secs=$((e-s)) $line"; break; fi
     if [ $rc -eq 2 ]; then res="harness_error"; detail="check=$c $(grep HARNESS /tmp/matrix.out | head -1)"; break; fi
   done
-  git -C /repo checkout -- .
+  git -C "$REPO" checkout -- .
   echo "$name: $res $detail"
   python3 - "$name" "$res" "$detail" <<'PY'
 import json,sys
-p='/verif/seeded/MATRIX.json'
+import os
+p=os.path.join(os.environ.get('ROOT','/verif'),'seeded/MATRIX.json')
 m=json.load(open(p)); m[sys.argv[1]]={"result":sys.argv[2],"detail":sys.argv[3]}
 json.dump(m, open(p,'w'), indent=1, sort_keys=True)
 PY
